@@ -9,8 +9,8 @@ import ReplicatProofs.Properties.C01
 Property theorems only.  Objects: the transition systems of `ReplicatModel/Sched.lean`; a schedule is a list of events,
 `run step s₀ evs = some s` = "every event was enabled when it was taken", so every theorem below quantifies over ALL schedules
 (any number of slots, workers, chunks, writer jobs, loaders, files).  The shapes the proofs depend on (slot numbering, release in
-`finally`, the worker's loop test, the abort protocol, delete-at-zero, decision under the lock) are the *generated* `Replicat.Gen`
-definitions and are discharged by `decide`: an edit to /repo that changes one of them breaks the proof.
+`finally`, the worker's loop test, the abort protocol incl. the producer's put that re-tests the abort flag while the queue is full,
+delete-at-zero, decision under the lock) are the *generated* `Replicat.Gen` definitions and are discharged by `decide`: an edit to /repo that changes one of them breaks the proof.
 
 PARTIAL claim: pre-emption inside CPython byte code between the instrumented points, the GIL and the event loop's internals are
 not modelled; liveness = deadlock freedom + a bound on the number of progress steps, not a time bound.
@@ -176,15 +176,15 @@ example : run (Life.step true) (Life.init 1 3) [.begin, .grant, .begin, .finish 
 
 /-- **No chunk is dropped or processed twice.**  When all `n ≥ 1` workers have left their loop normally, the chunks for which
 `_chunk_done` ran are exactly the chunks `0 … total-1`, each once (in some order — `result_schedule_independent` says the order
-does not matter). -/
-theorem snapshot_all_processed (total n : Nat) (hn : 0 < n) (evs : List SnapEv) (s : Snap)
-    (h : run Snap.step (Snap.init total n) evs = some s) (hex : allExited s.workers = true) :
+does not matter).  Holds for both shapes of the producer's put (`r`). -/
+theorem snapshot_all_processed (r : Bool) (total n : Nat) (hn : 0 < n) (evs : List SnapEv) (s : Snap)
+    (h : run (Snap.step r) (Snap.init total n) evs = some s) (hex : allExited s.workers = true) :
     s.processed ~ List.range total ∧ s.queue = [] ∧ s.produced = total := by
-  have hinv := snap_reach_inv total n evs s h
+  have hinv := snap_reach_inv r total n evs s h
   have hstat : s.workers.length = n ∧ s.total = total := by
-    have := run_inv Snap.step (fun t => t.workers.length = n ∧ t.total = total)
+    have := run_inv (Snap.step r) (fun t => t.workers.length = n ∧ t.total = total)
       (fun a e b hi hs => by
-        have := snap_step_static a e b hs
+        have := snap_step_static r a e b hs
         exact ⟨this.1.trans hi.1, this.2.2.trans hi.2⟩) evs _ _ (by simp [Snap.init]) h
     exact this
   rw [allExited_iff] at hex
@@ -211,10 +211,10 @@ theorem snapshot_all_processed (total n : Nat) (hn : 0 < n) (evs : List SnapEv) 
 
 /-- **No worker leaves early.**  A worker can take the `exit` step only when the queue is empty and the producer is done, i.e.
 never while a chunk is queued or yet to be produced (unless a worker failed and the run is being aborted). -/
-theorem snapshot_no_early_exit (total n : Nat) (evs : List SnapEv) (s s' : Snap) (w : Nat)
-    (h : run Snap.step (Snap.init total n) evs = some s) (hstep : Snap.step s (.exit w) = some s') :
+theorem snapshot_no_early_exit (r : Bool) (total n : Nat) (evs : List SnapEv) (s s' : Snap) (w : Nat)
+    (h : run (Snap.step r) (Snap.init total n) evs = some s) (hstep : Snap.step r s (.exit w) = some s') :
     s.queue = [] ∧ s.prodDone = true ∧ (s.produced = s.total ∨ HasF s.workers) := by
-  have hinv := snap_reach_inv total n evs s h
+  have hinv := snap_reach_inv r total n evs s h
   simp only [Snap.step] at hstep
   split at hstep
   · split at hstep
@@ -227,16 +227,18 @@ theorem snapshot_no_early_exit (total n : Nat) (evs : List SnapEv) (s s' : Snap)
     · cases hstep
   · cases hstep
 
-/-- **No deadlock.**  In every reachable state in which the operation is not over, some progress step (anything but the
-polling stutter) is enabled — with at least one worker. -/
-theorem snapshot_no_deadlock (total n : Nat) (hn : 0 < n) (evs : List SnapEv) (s : Snap)
-    (h : run Snap.step (Snap.init total n) evs = some s) (hnf : s.finished = false) :
-    ∃ e, e.progress = true ∧ (Snap.step s e).isSome = true := by
-  have hinv := snap_reach_inv total n evs s h
+/-- **No deadlock — PARTIAL: for a producer whose put re-tests the abort flag while the queue is full.**  The full statement
+("never a hang": in every reachable state in which the operation is not over, some progress step — anything but the polling
+stutter — is enabled, with at least one worker) with the one hypothesis it needs spelled out: `rechecks = true`, i.e. the put is a
+loop of timed attempts with the abort test in between.  It is false without it, see `blocking_put_deadlock_witness`. -/
+theorem snapshot_no_deadlock_partial (total n : Nat) (hn : 0 < n) (evs : List SnapEv) (s : Snap)
+    (h : run (Snap.step true) (Snap.init total n) evs = some s) (hnf : s.finished = false) :
+    ∃ e, e.progress = true ∧ (Snap.step true s e).isSome = true := by
+  have hinv := snap_reach_inv true total n evs s h
   have hstat : s.workers.length = n ∧ s.cap = Gen.queueFactor * n :=
-    run_inv Snap.step (fun t => t.workers.length = n ∧ t.cap = Gen.queueFactor * n)
+    run_inv (Snap.step true) (fun t => t.workers.length = n ∧ t.cap = Gen.queueFactor * n)
       (fun a e b hi hs => by
-        have := snap_step_static a e b hs
+        have := snap_step_static true a e b hs
         exact ⟨this.1.trans hi.1, this.2.1.trans hi.2⟩) evs _ _ (by simp [Snap.init]) h
   have hcap : 0 < s.cap := by
     rw [hstat.2]
@@ -265,9 +267,13 @@ theorem snapshot_no_deadlock (total n : Nat) (hn : 0 < n) (evs : List SnapEv) (s
           by_cases hpt : s.produced = s.total
           · exact ⟨.prodStop, rfl, by simp [Snap.step, hf, hpt]⟩
           · have := hinv.le
-            exact ⟨.put, rfl, by
-              have h1 : s.produced < s.total := by omega
-              simp [Snap.step, hf, h1, hq, hcap]⟩
+            have h1 : s.produced < s.total := by omega
+            cases hin : s.inPut with
+            | true => exact ⟨.put, rfl, by simp [Snap.step, hf, hin, h1, hq, hcap]⟩
+            | false =>
+              cases ha : s.abort with
+              | true => exact ⟨.prodStop, rfl, by simp [Snap.step, hf, ha, hP]⟩
+              | false => exact ⟨.enterPut, rfl, by simp [Snap.step, hf, hin, h1, ha]⟩
   -- every worker has stopped
   · have hstop : ∀ (i : Nat) (p : WPhase), s.workers[i]? = some p → p = WPhase.exited ∨ p = WPhase.failed := by
       intro i p hp
@@ -298,7 +304,8 @@ theorem snapshot_no_deadlock (total n : Nat) (hn : 0 < n) (evs : List SnapEv) (s
       | false =>
         by_cases hpt : s.produced = s.total
         · exact ⟨.prodStop, rfl, by simp [Snap.step, hf, hpt]⟩
-        · -- no exited worker (that would need prodDone), so with n ≥ 1 some worker failed: abort, then the producer stops
+        · -- no exited worker (that would need prodDone), so with n ≥ 1 some worker failed: abort, then the producer stops —
+          -- also when it is waiting inside the put on a full queue, because the put re-tests the flag
           have h0 : (0 : Nat) < s.workers.length := by omega
           have hF : HasF s.workers := by
             rcases hstop 0 s.workers[0] (by simp [h0]) with h1 | h1
@@ -310,12 +317,142 @@ theorem snapshot_no_deadlock (total n : Nat) (hn : 0 < n) (evs : List SnapEv) (s
           | true => exact ⟨.prodStop, rfl, by simp [Snap.step, hf, ha, hP]⟩
           | false => exact ⟨.raiseAbort, rfl, by simp [Snap.step, hFb, hA, ha]⟩
 
-/-- **Every schedule is short.**  A schedule without polling stutters has at most `3·total + n + 4` steps — so under a fair
-scheduler (polls do not starve the other agents) the operation reaches `finished` (by `snapshot_no_deadlock`). -/
-theorem snapshot_bounded_progress (total n : Nat) (evs : List SnapEv) (s : Snap)
-    (h : run Snap.step (Snap.init total n) evs = some s) (hp : ∀ e ∈ evs, e.progress = true) :
-    evs.length ≤ 3 * total + n + 4 := by
-  have key : ∀ (evs : List SnapEv) (a b : Snap), run Snap.step a evs = some b → (∀ e ∈ evs, e.progress = true) →
+/-- **No deadlock** (full statement, for the source as it is).  The hypothesis of `snapshot_no_deadlock_partial` is the regenerated
+shape flag `Gen.producerRechecksWhileFull` and is discharged by `decide`: if the producer's put becomes one blocking call this
+proof stops compiling. -/
+theorem snapshot_no_deadlock (total n : Nat) (hn : 0 < n) (evs : List SnapEv) (s : Snap)
+    (h : run (Snap.step Gen.producerRechecksWhileFull) (Snap.init total n) evs = some s) (hnf : s.finished = false) :
+    ∃ e, e.progress = true ∧ (Snap.step Gen.producerRechecksWhileFull s e).isSome = true := by
+  have hr : Gen.producerRechecksWhileFull = true := by decide
+  rw [hr] at h ⊢
+  exact snapshot_no_deadlock_partial total n hn evs s h hnf
+
+/-- **Negation witness for one blocking put** (`rechecks = false`: `chunk_queue.put(chunk)` after a single abort test).  One
+worker, queue bound c = `Gen.queueFactor`·1, c + 2 chunks, the schedule `Snap.floodSchedule c`: the producer fills the queue, the
+worker takes the first chunk, the producer queues one more and enters the put of the last chunk on the full queue; the worker's
+transfer fails, `abort` is set.  Now nothing is enabled — no worker is left to take a chunk, the producer never looks at the flag
+again, `await chunk_producer` never returns — and the operation is not over: a hang (`Snap.stuck` = not finished ∧ no progress
+event enabled; by `stuck_is_final` for ever).  Found on real code with such a producer by the harness (flood cases × fault plans
+that leave no worker; sig `snapshot:hang`). -/
+theorem blocking_put_deadlock_witness :
+    (run (Snap.step false) (Snap.init (Gen.queueFactor + 2) 1) (Snap.floodSchedule Gen.queueFactor)).map
+      (fun s => (s.queue.length == s.cap, s.inPut, s.abort, s.finished, Snap.stuck false s)) = some (true, true, true, false, true) := by
+  decide
+
+/-- … whereas the polling producer gets out of the very same state: after the same schedule `prodStop` is enabled (the abort test
+between two timed attempts), the producer becomes done and the operation is over. -/
+theorem polling_put_same_schedule_finishes :
+    (run (Snap.step true) (Snap.init (Gen.queueFactor + 2) 1) (Snap.floodSchedule Gen.queueFactor ++ [.prodStop, .prodVisible])).map
+      (fun s => (s.finished, s.uploaded, Snap.stuck true s)) = some (true, false, false) := by decide
+
+/-- `Snap.stuck` means what it says: in a reachable stuck state NO event at all is enabled (the candidate list misses nothing, and
+the polling stutter needs a producer that can still move), so no schedule leads anywhere from it — the state is final although the
+operation is not over: the hang is for ever. -/
+theorem stuck_is_final (r : Bool) (total n : Nat) (evs₀ : List SnapEv) (s : Snap)
+    (hreach : run (Snap.step r) (Snap.init total n) evs₀ = some s) (hs : Snap.stuck r s = true) (evs : List SnapEv) (s' : Snap)
+    (h : run (Snap.step r) s evs = some s') : s' = s ∧ evs = [] ∧ s.finished = false := by
+  have hle := (snap_reach_inv r total n evs₀ s hreach).le
+  have hstat : s.workers.length = n ∧ s.cap = Gen.queueFactor * n :=
+    run_inv (Snap.step r) (fun t => t.workers.length = n ∧ t.cap = Gen.queueFactor * n)
+      (fun a e b hi hs => by
+        have := snap_step_static r a e b hs
+        exact ⟨this.1.trans hi.1, this.2.1.trans hi.2⟩) evs₀ _ _ (by simp [Snap.init]) hreach
+  simp only [Snap.stuck, Bool.and_eq_true, Bool.not_eq_true', List.all_eq_true] at hs
+  obtain ⟨hfin, hall⟩ := hs
+  have hnone : ∀ e, Snap.step r s e = none := by
+    intro e
+    have hc : ∀ e ∈ Snap.candidates s.workers.length, Snap.step r s e = none := by
+      intro e he; have := hall e he; simpa using this
+    have hw : ∀ (w : Nat) (p : WPhase), s.workers[w]? = some p →
+        (Snap.step r s (.take w) = none ∧ Snap.step r s (.exit w) = none ∧ Snap.step r s (.finish w true) = none
+          ∧ Snap.step r s (.finish w false) = none) := by
+      intro w p hp
+      have hwl : w < s.workers.length := by
+        rw [List.getElem?_eq_some_iff] at hp; exact hp.1
+      have hm : ∀ e ∈ [SnapEv.take w, .exit w, .finish w true, .finish w false], e ∈ Snap.candidates s.workers.length := by
+        intro e he
+        simp only [Snap.candidates, mem_append, mem_flatMap, mem_range]
+        exact Or.inr ⟨w, hwl, he⟩
+      exact ⟨hc _ (hm _ (by simp)), hc _ (hm _ (by simp)), hc _ (hm _ (by simp)), hc _ (hm _ (by simp))⟩
+    have hbase : ∀ e ∈ [SnapEv.enterPut, .put, .prodStop, .prodVisible, .raiseAbort, .upload], Snap.step r s e = none := by
+      intro e he
+      exact hc e (by simp only [Snap.candidates, mem_append]; exact Or.inl he)
+    cases e with
+    | enterPut => exact hbase _ (by simp)
+    | put => exact hbase _ (by simp)
+    | prodStop => exact hbase _ (by simp)
+    | prodVisible => exact hbase _ (by simp)
+    | raiseAbort => exact hbase _ (by simp)
+    | upload => exact hbase _ (by simp)
+    | take w =>
+      cases hp : s.workers[w]? with
+      | none => simp [Snap.step, hp]
+      | some p => exact (hw w p hp).1
+    | exit w =>
+      cases hp : s.workers[w]? with
+      | none => simp [Snap.step, hp]
+      | some p => exact (hw w p hp).2.1
+    | finish w ok =>
+      cases hp : s.workers[w]? with
+      | none => simp [Snap.step, hp]
+      | some p => cases ok with
+        | true => exact (hw w p hp).2.2.1
+        | false => exact (hw w p hp).2.2.2
+    | poll w =>
+      -- a poll needs an idle worker and an empty queue while the producer is not done; then a progress event is enabled too
+      cases hp : s.workers[w]? with
+      | none => simp [Snap.step, hp]
+      | some p =>
+        cases p with
+        | idle =>
+          have hex := (hw w _ hp).2.1
+          simp only [Snap.step, hp] at hex ⊢
+          by_cases hc2 : Gen.workerContinues s.queue.isEmpty s.prodDone = false
+          · simp [hc2] at hex
+          · have hct : Gen.workerContinues s.queue.isEmpty s.prodDone = true := by simpa using hc2
+            cases hq : s.queue with
+            | nil =>
+              -- empty queue, the worker continues ⇒ the producer is not done ⇒ something on the producer side is enabled
+              rw [hq] at hct
+              simp only [List.isEmpty_nil] at hct
+              have hd : s.prodDone = false := by
+                cases hd : s.prodDone with
+                | false => rfl
+                | true => rw [hd, continues_done] at hct; cases hct
+              exfalso
+              have hwl : w < s.workers.length := by
+                rw [List.getElem?_eq_some_iff] at hp; exact hp.1
+              have hcap : 0 < s.cap := by
+                rw [hstat.2]
+                have : 0 < Gen.queueFactor := by decide
+                exact Nat.mul_pos this (by omega)
+              have h1 := hbase .prodVisible (by simp)
+              have h2 := hbase .prodStop (by simp)
+              have h3 := hbase .enterPut (by simp)
+              have h4 := hbase .put (by simp)
+              simp only [Snap.step, hd] at h1 h2 h3 h4
+              cases hf : s.prodFinished with
+              | true => simp [hf] at h1
+              | false =>
+                simp only [hf, hq, List.length_nil] at h2 h3 h4
+                revert h2 h3 h4
+                cases s.inPut <;> cases s.abort <;> cases Gen.producerStopsOnAbort <;> cases r <;> simp <;> omega
+            | cons k rest =>
+              simp
+        | busy k => simp [Snap.step, hp]
+        | exited => simp [Snap.step, hp]
+        | failed => simp [Snap.step, hp]
+  cases evs with
+  | nil => simp only [run, Option.some.injEq] at h; exact ⟨h.symm, rfl, hfin⟩
+  | cons e es => simp [run, hnone e] at h
+
+/-- **Every schedule is short.**  A schedule without polling stutters has at most `4·total + n + 5` steps (per chunk: enter the
+put, put, take, finish) — so under a fair scheduler (polls do not starve the other agents) the operation reaches `finished` (by
+`snapshot_no_deadlock`) or, with a blocking put, possibly a stuck state (`blocking_put_deadlock_witness`).  Both shapes of the put. -/
+theorem snapshot_bounded_progress (r : Bool) (total n : Nat) (evs : List SnapEv) (s : Snap)
+    (h : run (Snap.step r) (Snap.init total n) evs = some s) (hp : ∀ e ∈ evs, e.progress = true) :
+    evs.length ≤ 4 * total + n + 5 := by
+  have key : ∀ (evs : List SnapEv) (a b : Snap), run (Snap.step r) a evs = some b → (∀ e ∈ evs, e.progress = true) →
       evs.length + b.measure ≤ a.measure := by
     intro evs
     induction evs with
@@ -323,26 +460,26 @@ theorem snapshot_bounded_progress (total n : Nat) (evs : List SnapEv) (s : Snap)
     | cons e es ih =>
       intro a b hr hpe
       simp only [run] at hr
-      cases hs : Snap.step a e with
+      cases hs : Snap.step r a e with
       | none => simp [hs] at hr
       | some a1 =>
         rw [hs] at hr
-        have h1 := snap_step_measure a e a1 (hpe e (by simp)) hs
+        have h1 := snap_step_measure r a e a1 (hpe e (by simp)) hs
         have h2 := ih a1 b hr (fun x hx => hpe x (by simp [hx]))
         simp only [length_cons]
         omega
   have := key evs _ _ h hp
-  have hm : (Snap.init total n).measure = 3 * total + n + 4 := by
+  have hm : (Snap.init total n).measure = 4 * total + n + 5 := by
     simp only [Snap.measure, Snap.init, length_nil, map_replicate, wWeight, sum_replicate_nat]
     simp
   omega
 
 /-- **A failed worker means no snapshot object** — in every reachable state, if a worker raised (or the abort flag is set) the
 snapshot object has not been and will not be uploaded (`upload` needs all workers to have exited normally, and `failed` is final). -/
-theorem abort_no_snapshot (total n : Nat) (evs : List SnapEv) (s : Snap)
-    (h : run Snap.step (Snap.init total n) evs = some s) (hf : anyFailed s.workers = true ∨ s.abort = true) :
-    s.uploaded = false ∧ ∀ s', Snap.step s .upload ≠ some s' := by
-  have hinv := snap_reach_inv total n evs s h
+theorem abort_no_snapshot (r : Bool) (total n : Nat) (evs : List SnapEv) (s : Snap)
+    (h : run (Snap.step r) (Snap.init total n) evs = some s) (hf : anyFailed s.workers = true ∨ s.abort = true) :
+    s.uploaded = false ∧ ∀ s', Snap.step r s .upload ≠ some s' := by
+  have hinv := snap_reach_inv r total n evs s h
   have hF : HasF s.workers := by
     rcases hf with h1 | h1
     · exact (anyFailed_iff _).mp h1
@@ -363,9 +500,15 @@ theorem abort_no_snapshot (total n : Nat) (evs : List SnapEv) (s : Snap)
     simp [Snap.step, hnotall] at hs
 
 /-- non-vacuity: two workers, three chunks, a schedule in which the second chunk finishes first -/
-example : (run Snap.step (Snap.init 3 2)
-    [.put, .put, .take 0, .take 1, .put, .finish 1 true, .take 1, .prodStop, .finish 0 true, .finish 1 true, .prodVisible,
-     .exit 0, .exit 1, .upload]).map (fun s => (s.processed, s.uploaded, s.finished)) = some ([2, 0, 1], true, true) := by decide
+example : (run (Snap.step Gen.producerRechecksWhileFull) (Snap.init 3 2)
+    [.enterPut, .put, .enterPut, .put, .take 0, .take 1, .enterPut, .put, .finish 1 true, .take 1, .prodStop, .finish 0 true, .finish 1 true,
+     .prodVisible, .exit 0, .exit 1, .upload]).map (fun s => (s.processed, s.uploaded, s.finished)) = some ([2, 0, 1], true, true) := by decide
+
+/-- non-vacuity of the failure path: one worker, its transfer fails while the producer is inside a put on the full queue; with the
+source's put the producer stops at the abort test between two attempts and the operation ends without a snapshot object -/
+example : (run (Snap.step Gen.producerRechecksWhileFull) (Snap.init (Gen.queueFactor + 2) 1)
+    (Snap.floodSchedule Gen.queueFactor ++ [.prodStop, .prodVisible])).map
+      (fun s => (s.finished, s.uploaded, s.produced == Gen.queueFactor + 1)) = some (true, false, true) := by decide
 
 /-! ## S3 — restore: per-file write locks -/
 
@@ -510,16 +653,16 @@ example : LoadersWF [⟨0, [0, 0, 1], [0, 1]⟩, ⟨1, [0], [0]⟩] := by decide
 which `_chunk_done` ran is `s.processed.reverse`.  The references recorded for every file are a permutation of those of the
 sequential run, and restoring the file from them — the writer jobs executed in ANY order `ws`, whatever was at the target path
 before — yields exactly the file's bytes. -/
-theorem result_schedule_independent (n : Nat) (hn : 0 < n) (evs : List SnapEv) (st : Snap)
+theorem result_schedule_independent (r : Bool) (n : Nat) (hn : 0 < n) (evs : List SnapEv) (st : Snap)
     (strm : Bytes) (lens : List Nat) (hsum : lens.sum = strm.length)
-    (h : run Snap.step (Snap.init lens.length n) evs = some st) (hex : allExited st.workers = true)
+    (h : run (Snap.step r) (Snap.init lens.length n) evs = some st) (hex : allExited st.workers = true)
     (files : List Span) (hs : SpansSorted files) (i : Nat) (f : Span) (hf : files[i]? = some f) (hle : f.1 ≤ f.2) (hfe : f.2 ≤ strm.length)
     (old : Option Bytes) (ws : List PlanEntry)
     (hws : ws ~ plan (refsOfIn (records files (spansFrom 0 lens) st.processed.reverse) i)) :
     refsOfIn (records files (spansFrom 0 lens) st.processed.reverse) i ~ fileRefs f 0 (spansFrom 0 lens) ∧
     restoreFile (chunksOf strm lens) old (refsOfIn (records files (spansFrom 0 lens) st.processed.reverse) i) ws
       = some (slice strm f.1 f.2) := by
-  have hproc := (snapshot_all_processed lens.length n hn evs st h hex).1
+  have hproc := (snapshot_all_processed r lens.length n hn evs st h hex).1
   have hlen : (spansFrom 0 lens).length = lens.length := by
     have : ∀ (o : Nat) (l : List Nat), (spansFrom o l).length = l.length := by
       intro o l
